@@ -418,4 +418,49 @@ theorem pot_add {n : Nat} {L : Mat} {v w : Vec} {a b c : Nat}
   simp only [mul_add, Finset.sum_add_distrib, h1, h2]
   ring
 
+/-! ### maximum principle -/
+/-- **Maximum principle**: on a cut-connected network the source of a unit current has the
+highest potential. -/
+theorem max_principle (n : Nat) (c : Mat) (v : Vec) (a b : Nat) (ha : a < n)
+    (hs : SymmOn n c) (hc : ∀ i j, i < n → j < n → 0 ≤ c i j) (hconn : CutConnected n c)
+    (hv : IsPot n (laplacian n c) v a b) (x : Nat) (hx : x < n) : v x ≤ v a := by
+  obtain ⟨m, hm, hmax⟩ := Finset.exists_max_image (range n) v ⟨a, Finset.mem_range.mpr ha⟩
+  have hm' := Finset.mem_range.mp hm
+  by_contra hlt
+  have hlt' : v a < v m := lt_of_lt_of_le (not_le.mp hlt) (hmax x (Finset.mem_range.mpr hx))
+  obtain ⟨i, j, hi, hj, hSi, hSj, hcij⟩ := hconn (fun y => decide (v y = v m))
+    ⟨m, hm', by simp⟩ ⟨a, ha, by simp [ne_of_lt hlt']⟩
+  have hvi : v i = v m := by simpa using hSi
+  have hvj : v j ≠ v m := by simpa using hSj
+  have hia : i ≠ a := fun e => by rw [e] at hvi; exact (ne_of_lt hlt') hvi
+  have hk := hv i hi
+  rw [lap_mulVec n c v i hi hs] at hk
+  have hle : ∑ j ∈ range n, c i j * (v i - v j) ≤ 0 := by
+    rw [hk]; simp only [hia, if_false]; split <;> norm_num
+  have hpos : 0 < ∑ j ∈ range n, c i j * (v i - v j) := by
+    apply Finset.sum_pos'
+    · intro k hk'
+      exact mul_nonneg (hc i k hi (Finset.mem_range.mp hk'))
+        (by rw [hvi]; linarith [hmax k hk'])
+    · refine ⟨j, Finset.mem_range.mpr hj, ?_⟩
+      have h1 : 0 < c i j := lt_of_le_of_ne (hc i j hi hj) (Ne.symm hcij)
+      have h2 : v j < v m := lt_of_le_of_ne (hmax j (Finset.mem_range.mpr hj)) hvj
+      exact mul_pos h1 (by rw [hvi]; linarith)
+  linarith
+
+theorem pot_neg {n : Nat} {L : Mat} {v : Vec} {a b : Nat} (hv : IsPot n L v a b) :
+    IsPot n L (fun i => - v i) b a := by
+  intro i hi
+  have h := hv i hi
+  rw [sumTo_eq] at h ⊢
+  simp only [mul_neg, Finset.sum_neg_distrib, h]
+  ring
+
+/-- … and the sink the lowest -/
+theorem min_principle (n : Nat) (c : Mat) (v : Vec) (a b : Nat) (hb : b < n)
+    (hs : SymmOn n c) (hc : ∀ i j, i < n → j < n → 0 ≤ c i j) (hconn : CutConnected n c)
+    (hv : IsPot n (laplacian n c) v a b) (x : Nat) (hx : x < n) : v b ≤ v x := by
+  have := max_principle n c _ b a hb hs hc hconn (pot_neg hv) x hx
+  simpa using this
+
 end Pyunicorn.Circuit
